@@ -9,7 +9,7 @@ for d in /verif/seeded/*/; do
   i=$((i+1)); [ $((i % N)) -eq "$S" ] || continue
   n=$(basename "$d")
   p=$(python3 -c "import json;m=json.load(open('$d/meta.json'));c=m.get('caught_by_checks') or [];b=m['breaks_property'];print(b if (b in c or not c) else c[0])")
-  case "$n" in C20b-*|C20y-*|C20h-*)
+  case "$n" in C20b-*|C20y-*|C20h-*|C20l-*)
     out=$(/verif/mutrace.sh "$d/patch.diff" 2>&1); if echo "$out" | grep -q "^VIOLATION property=C20"; then echo "CAUGHT $n by C20 (race build)"; else echo "MISSED $n"; fi; continue;;
   esac
   out=$(VERIF_MINIMISE_S=1 VERIF_KS_QUICK_S=12 ./mutcheck.sh "$d/patch.diff" "$B" "$p" 2>&1)
